@@ -56,10 +56,10 @@ CHECK = {
     "design_ref": "DESIGN.md section 2.1 (shim), section 3 'Engine runnersim' / C07, section 4 row 10",
     "targets": [{"name": "TestC07History", "build": 0,
                  "quick": {"cases": 8000, "shards": 8, "soft_s": 45},
-                 "thorough": {"cases": 200000, "shards": 16, "soft_s": 400}},
+                 "thorough": {"cases": 300000, "shards": 8, "soft_s": 400}},
                 {"name": "TestC07LlamaSlots", "build": 1,
                  "quick": {"cases": 5000, "shards": 1, "soft_s": 30},
-                 "thorough": {"cases": 300000, "shards": 4, "soft_s": 300}},
+                 "thorough": {"cases": 500000, "shards": 1, "soft_s": 300}},
                 {"name": "TestC07LlamaShiftDiscard", "build": 1, "kind": "plain",
                  "quick": {"cases": 1, "shards": 1, "soft_s": 30},
                  "thorough": {"cases": 1, "shards": 1, "soft_s": 30}},
